@@ -12,6 +12,7 @@
 import Xc.Lemmas.MD
 import Xc.Prim.Cores
 import Xc.Prim.Yescrypt
+import Xc.Prim.Streebog
 
 namespace Xc.C16
 open Xc MD
@@ -87,5 +88,74 @@ theorem C16_hmac_sha256 (key text : Bytes) :
        let pad (p : UInt8) := (List.range 64).map fun i => p ^^^ k'.getD i 0
        Sha256.hash (pad 0x5c ++ Sha256.hash (pad 0x36 ++ text))) :=
   C16_hmac Sha256.alg (by decide) key text
+
+
+/-! ### Streebog: streaming = one-shot -/
+section streebog
+open Xc.Streebog
+
+theorem sb_absorb_eq (iv : St) : ∀ (n : Nat) (s : St) (m : Bytes), m.length ≤ n →
+    Streebog.absorb s m = (MD.absorb (alg iv) s (m.take (m.length / 64 * 64)), m.drop (m.length / 64 * 64)) := by
+  intro n
+  induction n with
+  | zero =>
+    intro s m h
+    have : m = [] := by simpa using h
+    subst this
+    rw [Streebog.absorb]; simp [MD.absorb_short (alg iv) s [] (by simp [alg])]
+  | succ n ih =>
+    intro s m h
+    rw [Streebog.absorb]
+    split
+    · rename_i hlt
+      have : m.length / 64 = 0 := by omega
+      simp [this, MD.absorb_short (alg iv) s [] (by simp [alg])]
+    · rename_i hge
+      have hge' : 64 ≤ m.length := by omega
+      rw [ih (stage2 s (m.take 64)) (m.drop 64) (by simp; omega)]
+      have hq : m.length / 64 = (m.length - 64) / 64 + 1 := by omega
+      have e1 : (m.drop 64).length = m.length - 64 := by simp
+      rw [e1]
+      have hb : (alg iv).block = 64 := rfl
+      have hstep := MD.absorb_step (alg iv) s (m.take (m.length / 64 * 64)) (by simp [alg]) (by
+        rw [hb]; simp only [List.length_take]; have := Nat.div_mul_le_self m.length 64; omega)
+      rw [hstep, hb]
+      have t1 : (m.take (m.length / 64 * 64)).take 64 = m.take 64 := by
+        rw [List.take_take]; congr 1; omega
+      have t2 : (m.take (m.length / 64 * 64)).drop 64 = (m.drop 64).take ((m.length - 64) / 64 * 64) := by
+        rw [List.drop_take]; congr 1; omega
+      have t3 : (m.drop 64).drop ((m.length - 64) / 64 * 64) = m.drop (m.length / 64 * 64) := by
+        rw [List.drop_drop]; congr 1; omega
+      rw [t1, t2, t3]; rfl
+
+/-- what a context that has been fed `chunks` holds: the state after all complete blocks, and the remainder -/
+theorem sb_ctx (iv : St) (chunks : List Bytes) :
+    ((chunks.foldl (MD.update (alg iv)) (MD.init (alg iv))).st, (chunks.foldl (MD.update (alg iv)) (MD.init (alg iv))).buf)
+      = Streebog.absorb iv chunks.flatten := by
+  have hb : 0 < (alg iv).block := by simp [alg]
+  have := MD.foldl_rep (alg iv) hb chunks (MD.init (alg iv)) [] (MD.init_rep (alg iv) hb)
+  simp only [List.nil_append] at this
+  obtain ⟨_, hs, pre, k, hm, hpre, hst⟩ := this
+  generalize chunks.foldl (MD.update (alg iv)) (MD.init (alg iv)) = c at *
+  have hbk : (alg iv).block = 64 := rfl
+  rw [hbk] at hs hpre
+  have hlen : chunks.flatten.length = k * 64 + c.buf.length := by rw [hm]; simp [hpre]
+  have hq : chunks.flatten.length / 64 = k := by omega
+  rw [sb_absorb_eq iv chunks.flatten.length iv chunks.flatten (Nat.le_refl _), hq, hm,
+      List.take_left' hpre, List.drop_left' hpre, hst]
+  rfl
+
+/-- **Streebog-256 / Streebog-512 through Init/Update/Final equal the one-shot function for every chunking** -/
+theorem C16_streebog256_streaming (chunks : List Bytes) : streamed256 chunks = hash256 chunks.flatten := by
+  have := sb_ctx init256 chunks
+  simp only [streamed256, hash256]
+  rw [← this]
+
+theorem C16_streebog512_streaming (chunks : List Bytes) : streamed512 chunks = hash512 chunks.flatten := by
+  have := sb_ctx init512 chunks
+  simp only [streamed512, hash512]
+  rw [← this]
+
+end streebog
 
 end Xc.C16
